@@ -137,7 +137,14 @@ inline bool blocked(State *s, int i) { Th &t = s->th[i]; return t.spinning && t.
 inline int pick(State *s, int me, bool me_runnable, int kind, volatile void *addr) {
     int alt[64]; int n = 0;
     if (me_runnable) alt[n++] = me;
-    for (int i = 0; i < (int)s->th.size() && n < 64; i++) if (i != me && !s->th[i].finished && !blocked(s, i)) alt[n++] = i;
+    // the other runnable threads in cyclic order starting after `me`: with an exhausted byte string (choice 0)
+    // a thread that cannot continue hands over round-robin, which makes the tail fair (no starvation of a lock
+    // holder by two spinners that keep waking each other)
+    int nth = (int)s->th.size();
+    for (int d = 1; d <= nth && n < 64; d++) {
+        int i = ((me < 0 ? -1 : me) + d) % nth;
+        if (i != me && !s->th[i].finished && !blocked(s, i)) alt[n++] = i;
+    }
     if (n == 0) return -1;
     if (n == 1) return alt[0];
     int c = s->ch->choose(n, me_runnable, kind, addr);
